@@ -9,6 +9,11 @@ S=$W/SEED
 export CARGO_TARGET_DIR=$W/target CARGO_NET_OFFLINE=true
 cd $W || exit 2
 echo "== $ID: patch"; git -C $W diff --stat -- src | tail -1
+# the worktree must contain exactly the delivered patch
+if ! git -C $W diff -- src | diff -q - $S/patch.diff >/dev/null; then
+  echo "WORKTREE DIFFERS FROM patch.diff: resetting the worktree's src to HEAD + patch.diff"
+  git -C $W checkout -- src && git -C $W apply $S/patch.diff || { echo "cannot re-apply"; exit 2; }
+fi
 git -C /repo apply --check $S/patch.diff || { echo "PATCH DOES NOT APPLY TO /repo"; exit 2; }
 echo "== suite with change"
 SUITE=$(cargo test --offline 2>&1 | grep -E "^test result" | tr '\n' ' ')
@@ -16,11 +21,12 @@ echo "$SUITE"
 echo "== demo with change"
 (sh $S/demo/run.sh >/tmp/seed/$ID.with.log 2>&1); WITH=$?
 echo "exit $WITH"
-git -C $W stash push -q -- src
+# (git stash is shared by all worktrees of a repository: never use it here)
+git -C $W apply -R $S/patch.diff
 echo "== demo without change"
 (sh $S/demo/run.sh >/tmp/seed/$ID.without.log 2>&1); WITHOUT=$?
 echo "exit $WITHOUT"
-git -C $W stash pop -q
+git -C $W apply $S/patch.diff
 echo "== our checks with the patch applied to /repo"
 git -C /repo apply $S/patch.diff
 RES=""
